@@ -37,6 +37,9 @@ class Check:
                           "traces_validated_against_impl": 0, "samples": [], "rule": "", "tlc_runs": []}
         self.assumptions: list = []
         self._distinct: set = set()
+        import glob
+        for old in glob.glob(os.path.join(REPLAY, pid, tier + "-*.json")):
+            os.unlink(old)
         with open(KNOWN) as f:
             k = json.load(f)
         self.known = [x for x in k.get("findings", []) if x["property"] == pid]
